@@ -24,12 +24,44 @@ SETS = ("alloc_nursery", "collect_nursery", "from_space", "to_space")
 
 
 def set_ops(f):
+    """(call, op, sets, guards) for every operation on one of the four sets. A receiver chosen first and used afterwards
+    (`let set = if nursery { &mut a } else { &mut b }; set.insert(o)`) counts as one operation per alternative, under the guards
+    of the block that chose it."""
     out = []
+    SETRX = r"\.(alloc_nursery|collect_nursery|from_space|to_space)$"
     for c in live_calls(f):
         if c.name in ("insert", "remove", "take", "swap", "clear", "drain", "retain", "extend") and c.args:
-            tgt = [m for a in range(min(2, len(c.args))) for m in re.findall(r"\.(alloc_nursery|collect_nursery|from_space|to_space)$", show(strip(f.flow.arg_tree(c, a))))]
+            tgt = [m for a in range(min(2, len(c.args))) for m in re.findall(SETRX, show(strip(f.flow.arg_tree(c, a))))]
             if tgt:
                 out.append((c, c.name, tuple(tgt), [(show(p.tree), p.val) for p in guards(f, c.bb)]))
+                continue
+            op = c.args[0]
+            if op[0] in ("c", "m") and len(op[1]) == 1:
+                alts = f.flow.alternatives(op[1][0], c.bb, "t")
+                # `let (set, name) = if .. { (&mut a, "a") } else { (&mut b, "b") }`: the receiver is field N of a tuple with several definitions
+                if len(alts) == 1 and alts[0][0] is not None:
+                    bb_def = alts[0][0]
+                    for j2, st2 in enumerate(f.blocks[bb_def]["s"]):
+                        bb2 = bb_def
+                        if st2[0] == "=" and st2[2][0] in ("use", "ref"):
+                            src = st2[2][1][1] if st2[2][0] == "use" and st2[2][1][0] in ("c", "m") else (st2[2][2] if st2[2][0] == "ref" else None)
+                            if src and len(src) >= 2 and isinstance(src[1], str) and re.fullmatch(r"\.\d+", src[1]):
+                                n_ = int(src[1][1:])
+                                talts = f.flow.alternatives(src[0], bb2, j2)
+                                proj = []
+                                for b3, t3 in talts:
+                                    t3 = strip(t3)
+                                    if t3 and t3[0] == "agg" and t3[1][0] == "tuple" and n_ < len(t3[2]):
+                                        proj.append((b3, t3[2][n_]))
+                                if len(proj) >= 2 and len(proj) == len(talts) and all(re.findall(SETRX, show(strip(t9))) for _, t9 in proj):
+                                    alts = proj
+                                    break
+                picked = [(b, re.findall(SETRX, show(strip(t)))) for b, t in alts]
+                if len(picked) >= 2 and all(b is not None and len(m) == 1 for b, m in picked):
+                    here = [(show(p.tree), p.val) for p in guards(f, c.bb)]
+                    for b, m in picked:
+                        gs = [(show(p.tree), p.val) for p in guards(f, b)]
+                        out.append((c, c.name, (m[0],), gs + [g for g in here if g not in gs]))
     return out
 
 
@@ -113,8 +145,17 @@ def run(ctx, F):
         ops = [(n, t) for c, n, t, gg in set_ops(g)]
         ctx.judge(ops == [("take", (fld,))], "C36.sweep", "%s empties %s (each dead object is swept once)" % (nm, fld), expected="mem::take(&mut sync.%s)" % fld, found=str(ops), where=where(g), key="C36.sweep|take|" + nm)
     cls = closures_of(F, sp)
-    rp = [(cl, c) for cl in cls for c in live_calls(cl) if c.name in ("release_pages", "release_multiple_pages")]
-    ctx.judge(len(rp) == 1 and rp[0][0].cfg.must_pass([rp[0][1].bb]), "C36.sweep", "every swept object's pages are released exactly once", expected="one release_pages(object start) on every path of the per-object closure", found=str(len(rp)),
+    # the per-object work may live in a closure of sweep_large_pages or in a private method it calls for each object
+    helpers = []
+    for g in [sp] + list(cls):
+        for c in live_calls(g):
+            h = F.fns.get(c.q or "")
+            if h is not None and h.blocks and (c.q or "").startswith("policy::largeobjectspace::LargeObjectSpace::") and str(h.meta.get("vis", "")).startswith("Restricted") and h is not sp \
+                    and h.argc == 2 and g.cfg.must_pass([c.bb]) and h not in helpers:
+                helpers.append(h)
+    per_obj = list(cls) + helpers + [x for h in helpers for x in closures_of(F, h)]
+    rp = [(cl, c) for cl in per_obj for c in live_calls(cl) if c.name in ("release_pages", "release_multiple_pages")]
+    ctx.judge(len(rp) == 1 and rp[0][0].cfg.must_pass([rp[0][1].bb]), "C36.sweep", "every swept object's pages are released exactly once", expected="one release_pages(object start) on every path of the per-object closure / helper", found=str(len(rp)),
               where=where(sp), key="C36.sweep|release-pages")
 
     # ---- locked
